@@ -27,15 +27,21 @@ import sys
 
 sys.path.insert(0, os.path.dirname(os.path.dirname(os.path.abspath(__file__))))
 import vlib  # noqa: E402
-from vlib import Check, run_tlc, run_cmd, build_harness, Graph, validate_trace, FrameworkError, log  # noqa: E402
+from vlib import Check, run_tlc, run_cmd, Graph, validate_trace, FrameworkError, log  # noqa: E402
 
 ALL = ("ok", "inv", "oob")
 IS_INVS = "TypeOK StartsExactlyOnce CountersExact GoalBound TempOwned"
 GL_SAFETY = "TypeOK OnlyDifferent MaxSampleRespected ContractKept StopJoins LockExclusive ReturnedWasProduced"
 
 
+def _rundir():
+    """Scratch files of this run (cfgs, graphs, traces): per process, so that a stand-alone run and
+    ./check C03 can share one work directory; removed at the end of input_states()."""
+    return vlib.ensure_dir(os.path.join(vlib.WORK, "c03x-run-%d" % os.getpid()))
+
+
 def _cfgdir():
-    return vlib.ensure_dir(os.path.join(vlib.WORK, "cfg-c03x"))
+    return _rundir()
 
 
 def _set(xs):
@@ -150,7 +156,7 @@ def _dump_graph(spec):
         raise FrameworkError("InputStates.tla (%s): the transcribed algorithm violates %s:\n%s" % (name, res.violated, res.out[-1500:]))
     g = Graph(edges)
     g.check_connected()
-    gpath = g.write(os.path.join(vlib.WORK, "c03x-graph-%s.ndjson" % name))
+    gpath = g.write(os.path.join(_rundir(), "graph-%s.ndjson" % name))
     return name, res, g, gpath
 
 
@@ -251,7 +257,7 @@ def _judge_replay(ck, totals, gname, gpath, variant, rc, out, err):
 # ----------------------------------------------------------------------------- lazy goal sampling (impl -> spec)
 
 def _lazy(ck, binary, nexec):
-    tpath = os.path.join(vlib.WORK, "c03x-lazy-trace.ndjson")
+    tpath = os.path.join(_rundir(), "lazy-trace.ndjson")
     rc, out, err = run_cmd([binary, "lazy", tpath, str(nexec)], timeout=900)
     if rc == -999:
         raise FrameworkError("lazy goal-sampling recorder did not finish within its (generous) time limit; "
@@ -409,6 +415,7 @@ def input_states(ck, tier):
         _lazy(ck, binary, 150 if tier == "quick" else 1500)
     finally:
         pool.shutdown(wait=True)
+        shutil.rmtree(_rundir(), ignore_errors=True)
 
 
 def replay(path):
